@@ -231,6 +231,9 @@ pub struct Scen {
     pub shards: usize,
     pub policy: String,
     pub ttl_s: Option<u64>,
+    /// time-to-idle in virtual seconds
+    #[serde(default)]
+    pub tti_s: Option<u64>,
     pub grace_s: Option<u64>,
     pub loader: bool,
     /// operations executed sequentially before the threads start
@@ -276,6 +279,9 @@ fn build_ctx(sc: &Scen) -> Arc<Ctx> {
     };
     if let Some(t) = sc.ttl_s {
         b = b.time_to_live(Duration::from_secs(t));
+    }
+    if let Some(t) = sc.tti_s {
+        b = b.time_to_idle(Duration::from_secs(t));
     }
     if let Some(g) = sc.grace_s {
         b = b.stale_while_revalidate(Duration::from_secs(g));
@@ -538,6 +544,32 @@ fn check(sc: &Scen, ctx: &Ctx, log: &[Ev]) -> Vec<Fail> {
             }
         }
     }
+    // C12: a live entry of an unbounded cache is not lost. For every key: if the operation that returned last among the
+    // writes / removals of that key is an insert (all of them written at the current virtual time, i.e. unexpired), its
+    // value must be resident at quiescence
+    if sc.oracle.contains("live") && ctx.capacity.is_none() {
+        let mut last: BTreeMap<K, &Ev> = BTreeMap::new();
+        for e in log.iter().filter(|e| e.thread != 99) {
+            let k = match &e.op {
+                Op::Insert(k, _, _) | Op::Remove(k) | Op::Invalidate(k) => Some(*k),
+                _ => None,
+            };
+            if let Some(k) = k {
+                if last.get(&k).map_or(true, |o| o.ret < e.ret) {
+                    last.insert(k, e);
+                }
+            }
+        }
+        for (k, e) in last {
+            if let Op::Insert(_, v, _) = &e.op {
+                // no other write/removal of the key may overlap it (then the order is not determined)
+                let overlapped = log.iter().any(|o| !std::ptr::eq(o, e) && o.thread != 99 && matches!(&o.op, Op::Insert(kk, _, _) | Op::Remove(kk) | Op::Invalidate(kk) if *kk == k) && o.ret > e.call);
+                if !overlapped && !dump.iter().any(|d| d.0 == k && *d.1 == *v) {
+                    out.push(Fail { prop: "C12", rule: "live_entry_missing", msg: format!("insert({}, #{}) completed last and the entry cannot have expired (written at the current virtual time), yet it is not resident at quiescence in an unbounded cache; resident {:?}; notifications {:?}", k, v, dump.iter().map(|d| (d.0, *d.1)).collect::<Vec<_>>(), ctx.notes.lock().unwrap().clone()) });
+                }
+            }
+        }
+    }
     // C11: linearizability of the recorded history against the per-key register
     if sc.oracle.contains("linear") {
         if let Some(f) = linearizable(sc, log) {
@@ -644,7 +676,7 @@ fn linearizable(sc: &Scen, log: &[Ev]) -> Option<Fail> {
 // ------------------------------------------------------------------ scenarios
 fn scenarios(tier: &str) -> Vec<Scen> {
     let quick = tier == "quick";
-    let base = Scen { name: String::new(), props: vec![], capacity: None, shards: 1, policy: "default".into(), ttl_s: None, grace_s: None, loader: false, setup: vec![], threads: vec![], advance_after_setup_s: 0, oracle: String::new(), async_threads: vec![], async_loader: false };
+    let base = Scen { name: String::new(), props: vec![], capacity: None, shards: 1, policy: "default".into(), ttl_s: None, tti_s: None, grace_s: None, loader: false, setup: vec![], threads: vec![], advance_after_setup_s: 0, oracle: String::new(), async_threads: vec![], async_loader: false };
     let p = |v: &[&str]| v.iter().map(|s| s.to_string()).collect::<Vec<_>>();
     let mut v = vec![
         // ---- C11: linearizability of per-key operations
@@ -677,6 +709,10 @@ fn scenarios(tier: &str) -> Vec<Scen> {
         // ---- expiry cleanup racing user removal (virtual clock advanced past the TTL after setup)
         Scen { name: "c16/expiry-cleanup-vs-remove".into(), props: p(&["C16", "C13"]), ttl_s: Some(10), setup: vec![SOp::Insert(0, 1), SOp::Insert(1, 1)], advance_after_setup_s: 11, threads: vec![vec![SOp::Remove(0)], vec![SOp::Janitor(0)]], oracle: "cost listener complete".into(), ..base.clone() },
         Scen { name: "c16/expiry-cleanup-vs-overwrite".into(), props: p(&["C16", "C13", "C11"]), ttl_s: Some(10), setup: vec![SOp::Insert(0, 1)], advance_after_setup_s: 11, threads: vec![vec![SOp::Insert(0, 1)], vec![SOp::Janitor(0)], vec![SOp::Fetch(0)]], oracle: "cost listener".into(), ..base.clone() },
+        // ---- idle-expiry cleanup (sampling pass) racing an overwrite: the fresh value is live and must survive
+        Scen { name: "c12/tti-cleanup-vs-overwrite".into(), props: p(&["C12", "C16", "C13"]), tti_s: Some(10), setup: vec![SOp::Insert(0, 1)], advance_after_setup_s: 11, threads: vec![vec![SOp::Insert(0, 1)], vec![SOp::Janitor(0)]], oracle: "cost listener live".into(), ..base.clone() },
+        Scen { name: "c12/async-tti-cleanup-vs-overwrite".into(), props: p(&["C12", "C16", "C13"]), tti_s: Some(10), setup: vec![SOp::Insert(0, 1)], advance_after_setup_s: 11, threads: vec![vec![SOp::Insert(0, 1)], vec![SOp::Janitor(0)]], oracle: "cost listener live".into(), async_threads: vec![true, false], ..base.clone() },
+        Scen { name: "c12/ttl-cleanup-vs-overwrite".into(), props: p(&["C12", "C16", "C13"]), ttl_s: Some(10), setup: vec![SOp::Insert(0, 1)], advance_after_setup_s: 11, threads: vec![vec![SOp::Insert(0, 1)], vec![SOp::Janitor(0)]], oracle: "cost listener live".into(), ..base.clone() },
         // ---- single flight with async callers, mixed callers and an async loader
         Scen { name: "c15/async-two-callers-one-key".into(), props: p(&["C15"]), loader: true, threads: vec![vec![SOp::FetchWith(0)], vec![SOp::FetchWith(0)]], oracle: "loader cost".into(), async_threads: all(2), ..base.clone() },
         Scen { name: "c15/mixed-callers-one-key".into(), props: p(&["C15"]), loader: true, threads: vec![vec![SOp::FetchWith(0)], vec![SOp::FetchWith(0)]], oracle: "loader cost".into(), async_threads: vec![false, true], ..base.clone() },
